@@ -34,7 +34,7 @@ type SeqScenario struct {
 	GapMs  int64            `json:"gap_ms"` // STATETTL scenarios: real-time pause before every row
 	TTLMs  int64            `json:"ttl_ms"` // STATETTL of the query: the trace is voided when the driver itself let a group idle too long
 	Span   int              `json:"span"`   // rows of one group are at most this many positions apart
-	Reuse  bool             `json:"reuse"`   // the producer re-uses ONE map object for all its rows (cleared and refilled before each call)
+	Reuse  bool             `json:"reuse"`  // the producer re-uses ONE map object for all its rows (cleared and refilled before each call)
 	Conc   bool             `json:"conc"`   // JOIN scenarios: table updates run in a goroutine of their own, concurrently with EmitSync callers
 	Seed   int64            `json:"seed"`
 }
@@ -109,6 +109,8 @@ func RunSeq(sc SeqScenario) (evs []Ev, inconclusive string) {
 		pc.OverflowConfig.BlockTimeout = time.Duration(sc.Perf.BlockMs) * time.Millisecond
 		opts = append(opts, streamsql.WithCustomPerformance(pc))
 	}
+	cl := &capLog{}
+	opts = append(opts, streamsql.WithLogger(cl))
 	s := newInstance(opts...)
 	reset := Ev{"tr": sc.Tr, "e": "reset"}
 	for k, v := range sc.Meta {
@@ -290,6 +292,11 @@ func RunSeq(sc SeqScenario) (evs []Ev, inconclusive string) {
 				nEmit++
 				s.Emit(row)
 				if !sc.Burst && !in.WaitFor(T, quiet) {
+					if ps := cl.Panics(); len(ps) > 0 { // the engine lost the row / batch in a panic of its own goroutine: a verdict, not a timeout
+						in.Log(Ev{"tr": sc.Tr, "e": "panic", "where": "engine goroutine (recovered)", "msg": ps[0]})
+						in.Log(Ev{"tr": sc.Tr, "e": "quiesce"})
+						return in.Events(), ""
+					}
 					return in.Events(), fmt.Sprintf("row %d not fully processed", i+1)
 				}
 			}
@@ -322,7 +329,15 @@ func RunSeq(sc SeqScenario) (evs []Ev, inconclusive string) {
 		in.Disarm()
 	}
 	if !in.WaitFor(T, quiet) {
+		if ps := cl.Panics(); len(ps) > 0 {
+			in.Log(Ev{"tr": sc.Tr, "e": "panic", "where": "engine goroutine (recovered)", "msg": ps[0]})
+			in.Log(Ev{"tr": sc.Tr, "e": "quiesce"})
+			return in.Events(), ""
+		}
 		return in.Events(), "no quiescence"
+	}
+	if ps := cl.Panics(); len(ps) > 0 {
+		in.Log(Ev{"tr": sc.Tr, "e": "panic", "where": "engine goroutine (recovered)", "msg": ps[0]})
 	}
 	if sc.Chan { // let the channel reader catch up: one batch per sink delivery (unless the engine dropped some: bounded wait)
 		in.WaitFor(500*time.Millisecond, func() bool {
